@@ -92,6 +92,34 @@ func c16Msg(c *Ctx, stream string, wire []byte) {
 	c.Pred(stream, "msgcopy-no-shared-memory", in, ov == "", ov, "disjoint", true)
 	scribble(reflect.ValueOf(cp), map[uintptr]bool{})
 	c.Pred(stream, "msgcopy-write-invisible", in, reflect.DeepEqual(m, snap), "original changed after writing through the copy", "unchanged", true)
+	// Msg.CopyTo: into a fresh message, into a recycled one, into one that already shares the source's slices
+	for vi, mk := range []func() *dns.Msg{
+		func() *dns.Msg { return new(dns.Msg) },
+		func() *dns.Msg {
+			d := new(dns.Msg)
+			d.SetQuestion("recycled.example.", dns.TypeMX)
+			d.Question = append(d.Question, dns.Question{Name: "second.example.", Qtype: 1, Qclass: 1})
+			d.Answer = []dns.RR{&dns.A{Hdr: dns.RR_Header{Name: "old.example.", Rrtype: dns.TypeA, Class: 1}, A: []byte{1, 2, 3, 4}}}
+			return d
+		},
+		func() *dns.Msg { d := *m; return &d },
+	} {
+		src := snapshot(m).(*dns.Msg)
+		srcSnap := snapshot(src)
+		var dst *dns.Msg
+		if vi == 2 {
+			d := *src
+			dst = &d
+		} else {
+			dst = mk()
+		}
+		out := src.CopyTo(dst)
+		c.Pred(stream, "copyto-leaves-source", fmt.Sprintf("%s variant=%d", in, vi), reflect.DeepEqual(src, srcSnap), "source changed by CopyTo", "unchanged", true)
+		ov = overlap(rangesOf(src), rangesOf(out))
+		c.Pred(stream, "copyto-no-shared-memory", fmt.Sprintf("%s variant=%d", in, vi), ov == "", ov, "disjoint", true)
+		scribble(reflect.ValueOf(out), map[uintptr]bool{})
+		c.Pred(stream, "copyto-write-invisible", fmt.Sprintf("%s variant=%d", in, vi), reflect.DeepEqual(src, srcSnap), "source changed after writing through the copy", "unchanged", true)
+	}
 	// read-only operations on the message
 	before := snapshot(m)
 	for _, comp := range []bool{false, true} {
